@@ -2,6 +2,7 @@ SPECIFICATION Spec
 CONSTANTS
   CwdVariant = "code"
   StatGuard = FALSE
+  CcStopsAtExisting = FALSE
   MaxFlags = 5
   MaxStr = 4
   Emit = TRUE
